@@ -56,58 +56,16 @@ def run(prog, rep):
                  ("C08-R5", "occurrences and binders renamed consistently")):
         rep.rule(r, t)
     consts, longs = readme_lists()
-    eng = terms.Engine(prog, inline=True, hooks=E.Hooks([TOK], opaque_names=[TOK + "collect_var_and_dom_from_operator", TOK + "collect_name", TOK + "skip_whitespaces"]))
+    import tokrules as TR
     tk = prog.lib_fn(TOK + "try_tokenize_recursive")
     if tk is None:
         rep.unresolved("C08-R1", "tokenizer", "", "tokenizer not found")
         return
     rep.functions.add(tk.qual)
-    s = eng.summary(tk)
-    calls = [x for x in s.all_sites() if x.kind == "call" and x.is_call_to("collect_var_and_dom_from_operator")]
-    ctors = [x for x in s.all_sites() if x.kind == "ctor" and str(x.callee).endswith("HctlToken::Hybrid")]
-    groups = {}
-    for x in calls:
-        ch = x.args[1][1] if x.args[1][0] == "lit" else None
-        long_name = None
-        for c in x.pc:
-            if c[0] == "if" and c[2] and c[1][0] == "bin" and c[1][1] == "==":
-                for side in (c[1][2], c[1][3]):
-                    if side[0] == "lit" and isinstance(side[1], str) and len(side[1]) > 1:
-                        long_name = side[1]
-        # the token built from this call
-        built = [k for k in ctors if any(y == x.term for a in k.args for y in [a] + list(subterms(a)))]
-        variant = str(built[0].args[0][1]).rsplit("::", 1)[-1] if built and built[0].args[0][0] == "ctor" else None
-        dom_none = bool(built) and built[0].args[2] == ("ctor", "std::prelude::v1::None", ())
-        dom_err = any(r for r in s.returns if r[5] == "return" and r[0][0] == "ctor" and str(r[0][1]).endswith("Err")
-                      and any(pol and q.is_some_test(t) is not None and any(y == x.term for y in subterms(q.is_some_test(t))) for t, pol in q.conds(r[1])))
-        groups.setdefault(ch, []).append({"site": x, "long": long_name, "variant": variant, "perm": x.args[2], "dom_none": dom_none, "dom_err": dom_err})
-    want_variant = {"!": "Bind", "3": "Exists", "V": "Forall", "@": "Jump"}
-    want_long = {"!": "bind", "3": "exists", "V": "forall", "@": "jump"}
-    for ch in ("!", "3", "V", "@"):
-        g = groups.get(ch, [])
-        shorts = [x for x in g if x["long"] is None]
-        lgs = [x for x in g if x["long"] is not None]
-        where = g[0]["site"].where() if g else f"{tk.file}:{tk.line}"
-        good = len(shorts) == 1 and len(lgs) == 1
-        why = f"{len(shorts)} short and {len(lgs)} long arms for `{ch}`"
-        if good:
-            a, b = shorts[0], lgs[0]
-            if not (a["variant"] == b["variant"] == want_variant[ch]):
-                good, why = False, f"short arm builds {a['variant']}, long arm `\\{b['long']}` builds {b['variant']}; expected {want_variant[ch]}"
-            elif a["perm"] != b["perm"]:
-                good, why = False, f"short arm passes {sem.short(a['perm'], 40)} as domain permission, long arm `\\{b['long']}` passes {sem.short(b['perm'], 40)}"
-            elif b["long"] != want_long[ch]:
-                good, why = False, f"long spelling of `{ch}` is `\\{b['long']}`, README documents `\\{want_long[ch]}`"
-            elif ch == "@" and not (a["dom_none"] and b["dom_none"] and a["dom_err"] and b["dom_err"]):
-                good, why = False, "the two jump arms do not both reject a domain and build a domain-free token"
-        if not shorts or not lgs:
-            rep.unresolved("C08-R1", f"hybrid:{ch}", where, why + ": the short / long arm pair could not be recovered from the tokenizer's call sites")
-            continue
-        rep.check(good, "C08-R1", f"hybrid:{ch}", where, f"`{ch}` and `\\{want_long[ch]}` are the same operator with the same domain permission", why)
-    found_longs = {x["long"] for g in groups.values() for x in g if x["long"]}
-    rep.check(longs is not None and found_longs == longs, "C08-R1", "long-names", f"{tk.file}:{tk.line}", f"long names {sorted(found_longs)} == README",
-              f"tokenizer accepts {sorted(found_longs)}, README documents {sorted(longs or [])}")
+    TR.check_long_short(prog, rep, "C08-R1", sorted(longs) if longs else None)
     rep.floor("C08-R1", 5)
+    eng = terms.Engine(prog, inline=True, hooks=E.Hooks([TOK], opaque_names=[TOK + "try_tokenize_recursive"]))
+    s = eng.summary(tk)
     # ---- R2 constants
     term_fn, table = c05.parser_constants(prog)
     if term_fn is None or consts is None:
@@ -120,24 +78,19 @@ def run(prog, rep):
                   f"terminal level maps {sorted(table[True])} to true and {sorted(table[False])} to false; README documents {sorted(consts[0])} / {sorted(consts[1])}")
     rep.floor("C08-R2", 1)
     # ---- R3
-    main_match = None
-    for n in hir.walk(tk.body):
-        if n.get("k") == "match" and str(n["e"].get("ty")) == "char" and len(n["arms"]) > 10:
-            main_match = n
-    if main_match is None:
-        rep.unresolved("C08-R3", "tokenizer/char-match", "", "character match not found")
-    else:
-        a0 = main_match["arms"][0]
-        g = a0.get("guard")
-        ws = g is not None and any(x.get("k") == "mcall" and x.get("name") == "is_whitespace" for x in hir.walk(g))
-        empty = a0["body"].get("k") == "block" and not a0["body"]["stmts"] and not a0["body"].get("expr")
-        rep.check(ws and empty, "C08-R3", "tokenizer/whitespace", f"{tk.file}:{a0['ln']}", "first arm: whitespace -> nothing",
-                  "the first arm of the tokenizer is not `whitespace => {}`")
-        grp = [x for x in s.all_sites() if x.kind == "ctor" and str(x.callee).endswith("HctlToken::Tokens")]
-        good = len(grp) == 1 and grp[0].args[0][0] == "proj" and grp[0].args[0][1][0] in ("rec", "call") and grp[0].args[0][1][1].endswith("try_tokenize_recursive") \
-            and any(c[0] == "match" and c[3] and c[2] == ("lit", "(") for c in grp[0].pc)
-        rep.check(good, "C08-R3", "tokenizer/group", grp[0].where() if grp else f"{tk.file}:{tk.line}", "`(` starts a recursively tokenised group",
+    m = TR.model(prog)
+    if m.ok:
+        fi, _ = TR.flag_index(m)
+        out = m.decide(["("], {fi: True} if fi is not None else None)
+        toks = [(t, r) for k, t, r in out if k == "token"]
+        good = len(toks) == 1 and TR.T.token_kind(toks[0][0]) == ("Tokens", None)
+        if good:
+            inner = toks[0][0][2][0]
+            good = any(y[0] in ("rec", "call") and isinstance(y[1], str) and y[1].endswith("try_tokenize_recursive") for y in [inner] + list(subterms(inner)))
+        rep.check(good, "C08-R3", "tokenizer/group", f"{tk.file}:{tk.line}", "`(` starts a recursively tokenised group",
                   "a parenthesised group is not tokenised by the recursive call")
+    else:
+        rep.unresolved("C08-R3", "tokenizer/group", f"{tk.file}:{tk.line}", "the tokenizer's main loop could not be modelled")
     # parser side: C05's terminal rule re-used
     sub = type(rep)("C08x")
     c05.check_levels(prog, sub)
@@ -151,7 +104,7 @@ def run(prog, rep):
     for i in sub5.instances:
         if i.rule == "C05-R5" or (i.rule == "C05-R4" and ("arm:3" in i.key or "arm:V" in i.key)):
             (rep.ok if i.verdict == "ok" else rep.violation if i.verdict == "violation" else rep.unresolved)("C08-R3", "whitespace/" + i.key, i.where, i.detail)
-    rep.floor("C08-R3", 11)
+    rep.floor("C08-R3", 9)
     # ---- R4
     lowlevel.check_primitives(prog, rep, "C08-R4")
     sub = type(rep)("C08y")
